@@ -1,12 +1,14 @@
 #!/bin/sh
-# tools/harvest.sh <Cnn> <round>: takes the deliverables of a seed author out of
-# its scratch worktree /tmp/s<round>-<Cnn>/SEED, removes that worktree, validates
-# the change (tools/seedtest.sh: demo passes without / fails with the change,
-# builds, existing suite passes) and runs the quick check against it.
+# tools/harvest.sh <Cnn> <round>: takes the deliverables of a seed author
+# (/tmp/s<round>-<Cnn>-SEED, or SEED/ inside its worktree /tmp/s<round>-<Cnn>),
+# removes that worktree, validates the change (tools/seedtest.sh: demo passes
+# without / fails with the change, builds, existing suite passes) and runs the
+# quick check against it.
 ID=$1; R=$2
 VD=$(cd "$(dirname "$0")/.." && pwd)
 ST=/tmp/s$R-stage/$ID
-mkdir -p $ST && cp /tmp/s$R-$ID/SEED/* $ST/ 2>/dev/null
+mkdir -p $ST
+cp /tmp/s$R-$ID-SEED/* $ST/ 2>/dev/null || cp /tmp/s$R-$ID/SEED/* $ST/ 2>/dev/null
 git -C /repo worktree remove --force /tmp/s$R-$ID 2>/dev/null
 sh $VD/tools/seedtest.sh $ID $ST quick > $VD/.work/seed$R-$ID.out 2>&1
 cp $VD/.work/seed-$ID.log $VD/.work/seed$R-$ID.log 2>/dev/null
